@@ -1,6 +1,6 @@
 /-
 Driver for stream `queue` (C20 a): one atomic step of the block-queue model per line.
-  new <cap> <h0> | put <idx> <tag> <ok01> <hr> | run | adv | disc | quiesce
+  new <cap> <h0> | put <idx> <tag> <ok01> <hr> | run | adv | notify | disc | quiesce
   -> pc=<pc> lq=<lastQ> left=<cap-len> h=<height> [add=<idx>/<tag>:<ok>,…]
 -/
 import NeoModel.Base.Proto
@@ -47,6 +47,7 @@ def step (s : State) (ws : List String) : State × String :=
   | ["run"] => let s' := settle (apply s .run); (s', obs s s')
   | ["adv"] => let s' := settle (apply s .adv); (s', obs s s')
   | ["disc"] => let s' := settle (apply s .disc); (s', obs s s')
+  | ["notify"] => let s' := settle (apply s .notify); (s', obs s s')
   | ["quiesce"] => let s' := quiesce 1000000 s; (s', obs s s')
   | _ => (s, "bad-op")
 
